@@ -166,7 +166,7 @@ func Gen(t *rapid.T, o GenOpts) *Scenario {
 	}
 	if o.Lookups {
 		for i := range s.Nodes {
-			if rapid.IntRange(0, 3).Draw(t, "haslookup") == 0 {
+			if s.Nodes[i].Variant == 'H' || rapid.IntRange(0, 3).Draw(t, "haslookup") == 0 {
 				k := rapid.IntRange(1, 2).Draw(t, "nlookups")
 				for j := 0; j < k; j++ {
 					s.Nodes[i].Lookups = append(s.Nodes[i].Lookups, rapid.IntRange(0, len(s.Nodes)-1).Draw(t, "lookup"))
